@@ -619,6 +619,68 @@ def run_socket(chk: Check, cap: Capture, program: dict[str, Any], cfg: dict[str,
             judge_record(chk, ln, fam=fam, what="cancel" if cancelled and err_ev is None else what, method=call["m"], observed=observed, level=level, witness=w)
 
 
+def run_hangup(chk: Check, cap: Capture) -> None:
+    """The client hangs up before the server answers a failing call: the reply cannot be written, the record still
+    has to name the error (type and full message).  Unary, stream init and stream step, over a unix socketpair."""
+    import contextlib
+
+    import pyarrow as pa
+    from pyarrow import ipc
+
+    from lib import httpdrv, svcgen
+    from vgi_rpc.rpc import RpcServer, make_unix_pair, rpc_methods
+
+    text = "hang-up case: " + "m" * 700
+    program = {
+        "name": "HangSvc",
+        "methods": [
+            {"name": "uf", "kind": "unary", "params": [], "ret": ("int",), "u": {"logs": [], "act": ("raise", "ValueError", text)}},
+            {"name": "pi", "kind": "producer", "params": [], "header": False, "out_cols": ["i"], "init": {"logs": [], "act": ("raise", "KeyError", text)}, "steps": []},
+            {"name": "ps", "kind": "producer", "params": [], "header": False, "out_cols": ["i"], "init": {"logs": [], "act": ("ok",)}, "steps": [{"logs": [], "act": "raise", "exc": ("RuntimeError", text)}]},
+        ],
+        "calls": [],
+    }
+    proto, impl = svcgen.build(program)
+    infos = rpc_methods(proto)
+    cap.set_level("INFO")
+    for name, etype, what in (("uf", "ValueError", "unary"), ("pi", "KeyError", "stream"), ("ps", "RuntimeError", "stream")):
+        server = RpcServer(proto, impl)
+        ct, st = make_unix_pair()
+        payload = httpdrv.request_body(name, infos[name].params_schema, {} if len(infos[name].params_schema) else None)
+        if what == "stream":
+            sink = pa.BufferOutputStream()
+            with ipc.new_stream(sink, pa.schema([])) as w:
+                w.write_batch(pa.RecordBatch.from_pydict({}, schema=pa.schema([])))
+            payload += sink.getvalue().to_pybytes()
+        ct.writer.write(payload)
+        ct.writer.flush()
+        with contextlib.suppress(Exception):
+            ct.close()  # the client is gone before the server has read a byte
+        start = cap.mark()
+        with contextlib.suppress(Exception):
+            server.serve(st)
+        with contextlib.suppress(Exception):
+            st.close()
+        lines = [ln for ln in cap.since(start) if f'"method": "{name}"' in ln or f'"method":"{name}"' in ln]
+        chk.case(f"socket:unix|{what}|error|client_hung_up_before_reply:{name}")
+        chk.hit("hangup_case_judged")
+        w_ = {"method": name, "records": [ln[:400] for ln in lines[:2]]}
+        if len(lines) != 1:
+            chk.violation(f"record_count:socket:{what}:{'none' if not lines else 'more_than_one'}:client_hung_up", f"{len(lines)} access records for a failing {what} call whose client hung up", w_)
+            continue
+        try:
+            rec = json.loads(lines[0])
+        except Exception:  # noqa: BLE001
+            chk.violation("record_not_json:client_hung_up", "access record is not JSON", w_)
+            continue
+        if rec.get("status") != "error" or rec.get("error_type") != etype or text not in str(rec.get("error_message", "")):
+            chk.violation(
+                f"error_record_incomplete:client_hung_up:{what}",
+                "the record of a failing call whose reply could not be written does not carry the error type and the full server-side message",
+                {**w_, "status": rec.get("status"), "error_type": rec.get("error_type"), "error_message": str(rec.get("error_message"))[:120], "expected_type": etype},
+            )
+
+
 def _trim(obj: Any) -> Any:
     if isinstance(obj, str):
         return obj if len(obj) <= 160 else obj[:80] + f"...<{len(obj)} chars>"
@@ -656,6 +718,10 @@ def run_shard(job: dict[str, Any]) -> dict[str, Any]:
     rng = random.Random(f"C34:shard:{job['seed']}:{job['index']}")
     programs: list[dict[str, Any]] = pickle.loads(base64.b64decode(job["programs_pickled"]))
     socket_kinds = job["socket_kinds"]
+    if job["index"] == 0:
+        ok, exc = guarded(lambda: run_hangup(chk, cap), CALL_TIMEOUT)
+        if not ok or exc is not None:
+            chk.inconclusive_because(f"hang-up leg did not complete: {exc!r}")
     for program in programs:
         legs: list[tuple[str, Any, dict[str, Any], str]] = []
         if not program.get("huge"):
@@ -698,6 +764,7 @@ def run_shard(job: dict[str, Any]) -> dict[str, Any]:
 def main(tier: str, seed: int) -> int:
     chk = Check(PID, tier, seed, level=CATEGORY, rule=RULE)
     chk.require(
+        "hangup_case_judged",
         "dispatch_joined",
         "record_schema_validated",
         "conformance_helper_ran",
